@@ -1651,6 +1651,16 @@ package mcp
 //@   ensures @known-method-accepted-or-invalid inDom(infos, req.Method) ==> result.1 == nil || errIs(result.1, jsonrpc2.ErrInvalidRequest)
 //@   ensures @accepted-request-gets-its-own-method-info result.1 == nil ==> inDom(infos, req.Method) && result.0 == infos[req.Method]
 
+// The cleanup of a subscriptions/listen request that ends (its first deferred function): it takes back only what that
+// listen itself registered - an entry that now belongs to another listen of the same session (registered under
+// another request id) stays, so the session keeps receiving the notifications it is still subscribed to.
+//@ func (*Server).subscriptionsListen$1 [C18]
+//@   requires s != nil && req != nil
+//@   ensures @a-listen-that-ends-removes-only-its-own-subscriptions
+//@        (at(locked, inDom(s.toolChangeSubscriptions, req.Session)) && at(locked, rawGet(s.toolChangeSubscriptions, req.Session)) != requestID ==> at(unlocked, inDom(s.toolChangeSubscriptions, req.Session)) && at(unlocked, rawGet(s.toolChangeSubscriptions, req.Session)) == at(locked, rawGet(s.toolChangeSubscriptions, req.Session)))
+//@        && (at(locked, inDom(s.promptChangeSubscriptions, req.Session)) && at(locked, rawGet(s.promptChangeSubscriptions, req.Session)) != requestID ==> at(unlocked, inDom(s.promptChangeSubscriptions, req.Session)) && at(unlocked, rawGet(s.promptChangeSubscriptions, req.Session)) == at(locked, rawGet(s.promptChangeSubscriptions, req.Session)))
+//@        && (at(locked, inDom(s.resourceChangeSubscriptions, req.Session)) && at(locked, rawGet(s.resourceChangeSubscriptions, req.Session)) != requestID ==> at(unlocked, inDom(s.resourceChangeSubscriptions, req.Session)) && at(unlocked, rawGet(s.resourceChangeSubscriptions, req.Session)) == at(locked, rawGet(s.resourceChangeSubscriptions, req.Session)))
+//@   ensures @other-sessions-are-left-alone forall o *ServerSession :: {inDom(s.toolChangeSubscriptions, o)} o != req.Session ==> at(unlocked, inDom(s.toolChangeSubscriptions, o)) == at(locked, inDom(s.toolChangeSubscriptions, o))
 // notifySubscribedSessions (2026-07-28 subscribers): one delivery attempt per subscriber, each stamped with that
 // subscriber's own listen-request id, all issued outside any request (background context, see notifySessions).
 //@ func (*Server).notifySubscribedSessions [C18, C10]
